@@ -48,7 +48,7 @@ func (c06) Gen(r *rand.Rand, tier string, run int) *core.Case {
 				op = core.Op{Kind: "auth", S: c06auths[r.IntN(len(c06auths))]}
 			case k < 9:
 				// Y: target selector
-				op = core.Op{Kind: "frame", X: int64(1 + r.IntN(8)), Y: int64(r.IntN(8)), S: []string{"tok", "tok", "empty"}[r.IntN(3)]}
+				op = core.Op{Kind: "frame", X: int64(1 + r.IntN(8)), Y: int64(r.IntN(48)), S: []string{"tok", "tok", "empty"}[r.IntN(3)]}
 			default:
 				op = core.Op{Kind: "wait"}
 			}
@@ -288,6 +288,11 @@ func c06hostile(c *core.Case, env *core.Env, st *c06state, hc *c06conn, ops []co
 	targets := [][3]uint32{
 		{st.w.ServiceID, 1, ActEcho}, {st.w.ServiceID, 1, ActFire}, {st.w.ServiceID, 1, ActNoarg}, {st.w.ServiceID, st.w.ObjIDs[1], ActEcho},
 		{st.w.ServiceID, 1, 2}, {0, 0, 3}, {0, 0, 8}, {7, 1, ActEcho},
+		// the generic actions of an object, among them the one that carries
+		// the same number as authenticate on service zero
+		{st.w.ServiceID, 1, 8}, {st.w.ServiceID, 1, 8}, {st.w.ServiceID, 0, 8}, {st.w.ServiceID, st.w.ObjIDs[1], 8}, {7, 0, 8},
+		{st.w.ServiceID, 1, 0}, {st.w.ServiceID, 1, 1}, {st.w.ServiceID, 1, 5}, {st.w.ServiceID, 1, 6}, {st.w.ServiceID, 1, 80},
+		{st.w.ServiceID, 1, 81}, {st.w.ServiceID, 1, 84}, {st.w.ServiceID, 1, 85}, {0, 1, 8}, {0, 0, 0}, {0, 0, 2},
 	}
 	for i, op := range ops {
 		switch op.Kind {
